@@ -1335,11 +1335,30 @@ def fn_live(items):
             tN, sN = _scrambles(N)[gi % 3]
         CMk = lib.CM if py else lib.tCM
         ops.append(('transform_by', lambda X: X.transform_by(CMk(tN, sN))))
+        if N >= 2:
+            mb = np.zeros(N, dtype=bool)
+            mb[N - 1] = True
+            mkm = (lambda: mb.copy()) if py else (lambda: lib.torch_mods()['torch'].tensor(mb.copy()))
+            t1, s1 = dom.valid_maps(1)[(gi * 5 + 3) % 24]
+            for hg, hp in dom.hermitian_paulis(1, include_identity=False)[gi % 2::2]:
+                ops.append(('rotate_by(%s, mask)' % ref.g_to_str(hg, hp), (lambda hg=hg, hp=hp: (lambda X: X.rotate_by(P(hg, hp), mask=mkm())))()))
+            ops.append(('transform_by(map, mask)', lambda X: X.transform_by(CMk(t1, s1), mask=mkm())))
         for cls, mk, parts in kinds:
             for p0 in range(4):
                 for opn, op in ops:
                     X = mk(g0, p0, 0.5 + 1j)
                     uses(X)                                      # first round: fills whatever the object memoises
+                    # copy -> in-place operation on the COPY -> the original still denotes what it did
+                    try:
+                        d0 = _dense(X, N)
+                        Cp = X.copy()
+                        op(Cp)
+                        n += 1
+                        if not np.allclose(_dense(X, N), d0, atol=1e-6):
+                            viol.append(V('C15/%s/live/%s/copy-not-independent' % (pkg, cls), [pkg, N, gi],
+                                          '%s N=%d: %s %s: copy(), then %s on the copy: the ORIGINAL changed' % (pkg, N, cls, ref.g_to_str(g0, p0), opn)))
+                    except (AttributeError, NotImplementedError, TypeError):
+                        pass
                     try:
                         op(X)
                     except Exception:
@@ -1357,6 +1376,71 @@ def fn_live(items):
                                           '%s N=%d: %s %s used in arithmetic, then changed in place by %s: afterwards %s differs from the same expression with a fresh object holding the same arrays' % (
                                               pkg, N, cls, ref.g_to_str(g0, p0), opn, k)))
                             break
+    return {'n': n, 'nt': nt, 'viol': viol}
+
+
+def fn_constants(items):
+    """item = [pkg, N]: pauli_identity(N) / pauli_zero(N) results are edited in place (set_cs, direct writes into cs / gs /
+    ps); afterwards fresh calls must still denote 1 and 0, and `X + number`, `X - number`, `number + X` must add that
+    multiple of the identity (dense matrices)."""
+    from ..core import V
+    from .c01 import _dense
+    n = nt = 0
+    viol = []
+    for pkg, N in items:
+        py = pkg == 'py'
+        mod = lib.ppa if py else lib.torch_mods()['tpa']
+        P, POLY = (lib.P, lib.POLY) if py else (lib.tP, lib.tPOLY)
+        d = 2 ** N
+        G = ref.all_g(N)
+
+        def judge(after):
+            nonlocal n, nt
+            checks = [('pauli_identity(N)', lambda: _dense(mod.pauli_identity(N), N), np.eye(d)),
+                      ('pauli_zero(N)', lambda: _dense(mod.pauli_zero(N), N), np.zeros((d, d)))]
+            X = P(G[-1], 3)
+            Q = POLY(G[[1, len(G) - 1]], np.array([0, 1]), [2.0, 0.5 - 1j])
+            dX, dQ = _dense(X, N), _dense(Q, N)
+            checks += [('Pauli + 2', lambda: _dense(X + 2, N), dX + 2 * np.eye(d)), ('Pauli - 1.5', lambda: _dense(X - 1.5, N), dX - 1.5 * np.eye(d)),
+                       ('2j + Pauli', lambda: _dense(2j + X, N), dX + 2j * np.eye(d)),
+                       ('poly + 2', lambda: _dense(Q + 2, N), dQ + 2 * np.eye(d)), ('poly - (1+1j)', lambda: _dense(Q - (1 + 1j), N), dQ - (1 + 1j) * np.eye(d)),
+                       ('3 + poly', lambda: _dense(3 + Q, N), dQ + 3 * np.eye(d))]
+            for nm, f, want in checks:
+                try:
+                    got = f()
+                except (NotImplementedError, TypeError, AttributeError):
+                    continue
+                n += 1
+                nt += 1
+                if not np.allclose(got, want, atol=1e-5):
+                    viol.append(V('C15/%s/constants/%s' % (pkg, nm.split('(')[0].replace(' ', '')), [pkg, N],
+                                  '%s N=%d: %s after %s is not the documented operator' % (pkg, N, nm, after)))
+                    return False
+            return True
+        if not judge('nothing'):
+            continue
+        for src in ('pauli_identity', 'pauli_zero'):
+            for enm in ('set_cs', 'write-cs', 'write-gs-ps'):
+                try:
+                    o = getattr(mod, src)(N)
+                    if enm == 'set_cs':
+                        o.set_cs(np.array([0.5 + 0.5j]) if py else lib.torch_mods()['torch'].tensor([0.5 + 0.5j]))
+                    elif enm == 'write-cs':
+                        if py:
+                            o.cs[...] = 3 - 1j
+                        else:
+                            o.cs.fill_(3 - 1j)
+                    else:
+                        if py:
+                            o.gs[...] = 1
+                            o.ps[...] = 3
+                        else:
+                            o.gs.fill_(1)
+                            o.ps.fill_(3)
+                except Exception:
+                    continue
+                if not judge('%s on an earlier %s(%d) result' % (enm, src, N)):
+                    break
     return {'n': n, 'nt': nt, 'viol': viol}
 
 
@@ -1407,4 +1491,6 @@ def legs(tier):
                    bound='N=5..9, both packages: 8-term polynomials whose strings agree everywhere except at one qubit (every position, all four letters, repeats with other phases): reduce() and sum against a dictionary oracle'))
     out.append(Leg('live_histories', fn_live, [[pkg, N, gi] for pkg in ('py', 'torch') for N in (1, 2) for gi in range(4 ** N)] + [[pkg, 3, gi] for pkg in ('py', 'torch') for gi in range(1, 64, 9)], chunk=2,
                    bound='N<=2 every string x 4 phases (N=3: every 9th string): Pauli / PauliMonomial / PauliPolynomial used in 11 expressions, changed in place (every second Hermitian generator, one map), used again vs a fresh object'))
+    out.append(Leg('constants', fn_constants, [[pkg, N] for pkg in ('py', 'torch') for N in (4, 1, 2, 3)], chunk=1,
+                   bound='both packages, N<=4: pauli_identity / pauli_zero results edited in place, then fresh calls and X +- number re-checked against dense matrices'))
     return out
